@@ -108,3 +108,12 @@ def type_name(t):
 
 def str_of_type(t):
     return str(t)
+
+
+UF_NATIVE: dict = {}  # native meaning of shared uninterpreted functions: registered by the spec module (native side)
+
+
+def uf(name, ret_type, *args):
+    if name not in UF_NATIVE:
+        raise NotNative(f"uninterpreted function {name} has no native meaning")
+    return UF_NATIVE[name](*args)
